@@ -1153,3 +1153,42 @@ def cancelled_item_ends_with_items(ctx, rule):
     rule.check(okf, ctx.construct(fs, extra='CANCELLED first'),
                'the final state of a with-items task does not give an '
                'accepted CANCELLED item precedence', ctx.loc(fs))
+
+
+def upstream_states_are_completed_states(ctx, rule):
+    """Which upstream tasks a task takes its data from: every state filter
+    in DirectWorkflowController._get_upstream_task_executions must select
+    exactly the completed states (states.is_completed) - a completed state
+    that is left out (SKIPPED was: F23) makes the tasks behind such a task
+    lose what that branch published."""
+    prog, sd = ctx.prog, ctx.sd
+    completed = sd.pred_set('is_completed')
+    f = prog.func('mistral.workflow.direct_workflow.DirectWorkflowController.'
+                  '_get_upstream_task_executions')
+    n = 0
+    for c in own_nodes(f.node):
+        if not (isinstance(c, ast.Call) and
+                U.call_name(c) == '_get_task_executions'):
+            continue
+        st = U.kwarg(c, 'state')
+        n += 1
+        got = None
+        if isinstance(st, ast.Dict) and len(st.keys) == 1 and \
+                isinstance(st.keys[0], ast.Constant) and \
+                st.keys[0].value == 'in' and \
+                isinstance(st.values[0], (ast.Tuple, ast.List, ast.Set)):
+            got = {sd.const_state(e) for e in st.values[0].elts}
+        elif st is not None and sd.const_state(st) is not None:
+            got = {sd.const_state(st)}
+        rule.check(got is not None and None not in got and
+                   got == set(completed),
+                   ctx.construct(f, c, extra='completed upstream tasks'),
+                   'the upstream tasks are selected in states %s, the '
+                   'completed states are %s: a task behind a %s task does '
+                   'not receive the data of that branch'
+                   % (sorted(got or []), sorted(completed),
+                      '/'.join(sorted(set(completed) - (got or set())))),
+                   ctx.loc(f, c))
+    if n < 3:
+        raise AnalysisError('upstream task queries of the direct controller '
+                            'lost (%d)' % n)
